@@ -32,8 +32,9 @@ extern int mpt_color_html(MPT_STRUCT(color) *color, const char *txt)
 	len = 0;
 	
 	while (part[3]--) {
-		if (!(part[0] = txt[len++]))
+		if (!(part[0] = txt[len]))
 			break;
+		++len;
 		
 		if (!(part[1] = txt[len++])) {
 			errno = EINVAL; return -1;
